@@ -328,7 +328,12 @@ func httpOp(s *server, d *graphDesc, lv *live, rec recOp) []recOp {
 				return []recOp{rec}
 			}
 			var out []recOp
+			n := len(d.Producers)
 			for pi, pr := range d.Producers {
+				// three files per archive (seeded rotation), the rest is not looked at
+				if n > 3 && (pi+op.ZipPick)%n >= 3 {
+					continue
+				}
 				x := rec
 				x.plan.Prod = pi
 				x.Arg = "zip:" + pr.Name
